@@ -916,6 +916,17 @@ impl CraneliftCompiler {
                 // Do not delegate the check to the verifier, since registered functions can be
                 // changed after the program has been verified.
                 ebpf::CALL => {
+                    if insn.src != 0 {
+                        // eBPF-to-eBPF calls (src == 1) are not supported by this backend; never
+                        // compile them as a helper call whose id is the displacement.
+                        return Err(Error::new(
+                            ErrorKind::Other,
+                            format!(
+                                "[CRANELIFT] Error: unsupported call type #{} (insn #{})",
+                                insn.src, insn_ptr
+                            ),
+                        ));
+                    }
                     let func_ref = self
                         .helper_func_refs
                         .get(&(insn.imm as u32))
@@ -938,7 +949,8 @@ impl CraneliftCompiler {
 
                     let call = bcx.ins().call(func_ref, &[arg0, arg1, arg2, arg3, arg4]);
                     let ret = bcx.inst_results(call)[0];
-                    self.set_dst(bcx, &insn, ret);
+                    // The helper's return value goes to r0
+                    bcx.def_var(self.registers[0], ret);
                 }
                 ebpf::TAIL_CALL => unimplemented!(),
                 ebpf::EXIT => {
